@@ -20,6 +20,15 @@ CHECKS = {
                 text="Tagged user tables make every batch row decode to the original row of each of its parts; TLC checks row alignment, shuffled-index conformance, "
                      "per-key parameter sources (table over range, both table shapes) and multi-network loaders for every table size <= 8 and batch size.",
                 note="tables are crafted (distinct tagged floats); PRNG sampled", ref="3.2 C15"),
+    "C16": dict(cat="model_checking", tech="TLC model checking of Rar.tla / RarStore.tla + trace validation (Trace_Rar.tla) of generators driven directly and through jinns.solve",
+                text="All schedules (start, every), capacities and per-axis sizes up to the bounds are model-checked (steps exactly at start+k*every while there is room, "
+                     "active count = nstart + J*sel per axis, never beyond the store); every iteration of the real ODE/stationary/non-stationary generators, driven in solver "
+                     "order and end-to-end through solve (hooks H1/H2), must satisfy the same schedule and count clauses until the store is full.",
+                note="step = change of the generator's step counter; active = non-zero probability; PRNG sampled; hooks H2 used only for the end-to-end leg", ref="3.3 C16"),
+    "C17": dict(cat="model_checking", tech="TLC model checking of RarStore.tla / Rar.tla + trace validation (Trace_Rar.tla) with hook H1 candidates and independently recomputed residual ranks",
+                text="Store-level model with every reshuffle and every top set; in the traces the points written by each real refinement step must be candidates reported by hook H1 with "
+                     "the highest independently recomputed residual (top pairs for product domains), written only into the inactive window, with every active point surviving every draw, reshuffle and step.",
+                note="candidates come from the guarded hook H1; crafted residual landscapes; near-ties tolerated; PRNG sampled", ref="3.3 C17"),
 }
 NA = {}
 
@@ -48,7 +57,7 @@ def main():
         version=1,
         setup_cmd="bin/setup",
         hooks=dict(guard="JINNS_VERIF", enable="environment variable JINNS_VERIF=1 (set by the drivers' worker processes); nothing to rebuild, jinns is imported from /repo's working tree",
-                   baseline_off_cmd="bin/baseline", source_commits=[], add_only=True),
+                   baseline_off_cmd="bin/baseline", source_commits=["26a6aa3", "0019eef"], add_only=True),
         engines=[dict(name="tlc-trace", path="/verif/bin/check", serves_properties=[c["property_id"] for c in checks],
                       kind_free_text="explicit TLA+ specification (spec/*.tla) model-checked with TLC; conformance by trace validation of the real code against monitor specs and replay of TLC-generated scenarios")],
         checks=checks,
